@@ -164,6 +164,7 @@ func Main[S any](t *testing.T, p Prop[S]) {
 	budget := time.Duration(envInt("VERIF_BUDGET_S", 20)) * time.Second
 	maxRuns := envInt("VERIF_MAX_RUNS", 0)
 	failFile := os.Getenv("VERIF_FAILFILE")
+	curFile := os.Getenv("VERIF_CURFILE")
 	rep := &WorkerReport{Property: p.ID, Probes: map[string]int{}, Faults: map[string]int{}}
 	nontrivial := map[uint64]struct{}{}
 	all := map[uint64]struct{}{}
@@ -186,6 +187,9 @@ func Main[S any](t *testing.T, p Prop[S]) {
 			b, _ := json.Marshal(rep)
 			_ = os.WriteFile(out, b, 0o644)
 		}
+		if curFile != "" {
+			_ = os.Remove(curFile)
+		}
 		if wantTrace {
 			_ = os.WriteFile(os.Getenv("VERIF_TRACEFILE"), []byte(strings.Join(traceLines, "\n")+"\n"), 0o644)
 		}
@@ -198,6 +202,12 @@ func Main[S any](t *testing.T, p Prop[S]) {
 			}
 		}
 		sc := p.Draw(rt)
+		if curFile != "" {
+			// written before the run: if the code under test hangs or kills the
+			// process, the driver still has the scenario that did it
+			b, _ := json.Marshal(map[string]any{"property": p.ID, "class": "crash-or-hang", "detail": "the process died or stopped responding while running this scenario", "scenario": sc})
+			_ = os.WriteFile(curFile, b, 0o644)
+		}
 		out := p.Run(t, sc, false)
 		if !failing {
 			rep.Runs++
